@@ -190,3 +190,33 @@ func VerifWireReliableReadMsgUDPOn(r *Reliable, buf []byte) (msg []byte, left in
 
 // VerifWireUnreliableQueued is the number of datagrams waiting in an unreliable tube's receive queue.
 func VerifWireUnreliableQueued(u *Unreliable) int { return len(u.recv.C) }
+
+// VerifWireWritten returns what the production Write path of a preloaded tube put into its stream so
+// far (the data of the frames its sender buffered).
+func VerifWireWritten(r *Reliable) (stream []byte) {
+	r.sender.m.Lock()
+	for _, f := range r.sender.frames {
+		stream = append(stream, f.data...)
+	}
+	r.sender.m.Unlock()
+	return
+}
+
+// VerifWireUnreliableRead runs the production (*Unreliable).ReadMsgUDP with a buffer of bufLen bytes on
+// an initiated tube whose receive queue holds the single datagram msg.
+func VerifWireUnreliableRead(msg []byte, bufLen int) (out []byte, n int, err error) {
+	u := &Unreliable{
+		state:     atomic.Value{},
+		initiated: make(chan struct{}),
+		closed:    make(chan struct{}),
+		send:      common.NewDeadlineChan[[]byte](4),
+		recv:      common.NewDeadlineChan[[]byte](4),
+		log:       verifWireLog(),
+	}
+	u.state.Store(initiated)
+	close(u.initiated)
+	u.recv.C <- append([]byte(nil), msg...)
+	buf := make([]byte, bufLen)
+	n, _, _, _, err = u.ReadMsgUDP(buf, nil)
+	return buf[:n], n, err
+}
